@@ -132,7 +132,7 @@ End Boot.
 
 (* ------------------------------------------------------------------ statements for Props/C06.v *)
 Lemma xsiteb_unfold k : xsiteb k = true <->
-  (k = 11 \/ k = 13 \/ k = 41 \/ k = 42 \/ k = 43 \/ k = 45 \/ k = 46 \/ k = 47 \/ k = 48 \/ k = 49 \/ k = 50 \/ k = 51).
+  (k = 11 \/ k = 12 \/ k = 13 \/ k = 41 \/ k = 42 \/ k = 43 \/ k = 45 \/ k = 46 \/ k = 47 \/ k = 48 \/ k = 49 \/ k = 50 \/ k = 51).
 Proof.
   unfold xsiteb. rewrite !Bool.orb_true_iff, !N.eqb_eq. tauto.
 Qed.
@@ -202,7 +202,7 @@ Proof. intros Hn prelude s0 s B Ev. apply (evals_winv Hn s0 s Ev). exact (boot_w
 
 Theorem eval_no_vm_panic_plain : num_panics_ok -> forall prelude s0 s fuel e k,
   boot_with prelude = Some s0 -> evals s0 s -> eval other_builtin fuel e s = RPanic k ->
-  k <> 11 /\ k <> 13 /\ k <> 41 /\ k <> 42 /\ k <> 43 /\ k <> 45 /\ k <> 46 /\ k <> 47 /\ k <> 48 /\ k <> 49 /\ k <> 50 /\ k <> 51.
+  k <> 11 /\ k <> 12 /\ k <> 13 /\ k <> 41 /\ k <> 42 /\ k <> 43 /\ k <> 45 /\ k <> 46 /\ k <> 47 /\ k <> 48 /\ k <> 49 /\ k <> 50 /\ k <> 51.
 Proof.
   intros Hn prelude s0 s fuel e k B Ev E. pose proof (eval_no_vm_panic Hn prelude s0 s fuel e k B Ev E) as H.
   assert (N : ~ (xsiteb k = true)) by (rewrite H; discriminate). rewrite xsiteb_unfold in N. tauto.
